@@ -272,6 +272,25 @@ def check_b32(ctx):
     ctx.expect(paths, ret=1)
 
 
+def check_bm_kinds(ctx):
+    b0 = ctx.sandbox_base(32, "b0", aligned=False)
+    paths = ctx.run("k_bm_app_pointer_kinds", [b0])
+    for q in paths:
+        if q.status != "ret":
+            ctx.fail(q, "registering an application pointer to a function-pointer object failed: %s %s" % (q.status, q.info))
+            continue
+        lg = q.user["log"]
+        e7 = [e for e in lg if e[0] == 7][0]
+        e8 = [e for e in lg if e[0] == 8][0]
+        v = lambda x: x if not isinstance(x, int) else BV(x, 64)
+        ctx.require(q, z3.And(v(e7[1]) != 0, v(e7[2]) != 0, v(e7[1]) != v(e7[2]), z3.ULE(v(e7[2]), BV(0xFFFFFFFF, 64)), v(e7[3]) == v(e8[2]),
+                              v(e8[1]) == b0 + v(e7[2])),
+                    "the token of a pointer to a function-pointer object is non-zero, in range, distinct, resolves to its pointer, and its tainted form is the "
+                    "in-sandbox address base + token (a data address, not a function-table entry)")
+    ctx.only(paths, "ret")
+    ctx.expect(paths, ret=1)
+
+
 def check_apm_max(ctx, cursor):
     """limit = the largest value of the token type (255): the table is full except for at most one symbolic slot;
     the cursor is a given concrete position (0 = wrapped after issuing token 255)"""
@@ -315,5 +334,6 @@ def jobs(tier, seed):
                                                             kw=dict(depth=depth, first=f), unwind=400)], max_paths=200000))
     out.append(Job("C15_owner_two", osrc, [dict(name="owners of two sandboxes with equal tokens", fn=check_two_sandboxes, unwind=400)], native=False))
     out.append(Job("C15_b32", '#include "C15_b32.inc"\n', [dict(name="32-bit token table on a 4 GiB sandbox", fn=check_b32, unwind=400)], native=False))
+    out.append(Job("C15_bm_kinds", '#include "C15_bm.inc"\n', [dict(name="BM app pointers to int and to function-pointer objects", fn=check_bm_kinds, unwind=400)], native=False))
     out.append(Job("C15_owner_stale", osrc, [dict(name="stale token lookup", fn=check_stale, unwind=400)]))
     return out
